@@ -125,7 +125,7 @@ def main(run, replay=None):
             continue
         out = r["out"]
         if "err" in out:
-            if out["err"] == "not-implemented":
+            if out["err"] == "not-implemented" and r["in"].get("k") != "mat":
                 terms.append("chk_refused %s %s" % (coq_ops(c["ops"]), X.coq_sx(r["in"])))
                 owners.append((ci, "refused"))
             continue
